@@ -1,14 +1,14 @@
 prop("C07", pkg="c07", vlimit_gb=16, fuzz=[("FuzzProtoDecode", 90)],
-     rule="rapid draws a target type and 5 small values per type from the shared generator pgen (same type space as C03; strings <= 40 bytes, repeated fields <= 14 elements, "
+     rule="rapid draws a target type and 5 small values per type from the shared generator pgen (same type space as C03, including top-level targets and fields behind 1..3 pointers to Message / custom implementers and corpus structs; strings <= 40 bytes, repeated fields <= 14 elements, "
           "nesting <= 2) plus a 64-bit seed; from b = Marshal(v) the check enumerates: b itself; EVERY prefix b[:i]; for up to 24 fields (found at every nesting level by walking b "
           "with protowire along the type descriptor): the length prefix replaced by L-1, L+1, 2L+2, 2^24+L, 2^31, 2^63 (and L+1 with the enclosing lengths fixed up), tag / length "
           "/ value varints re-encoded in 10 and 11 bytes, the wire type set to each of the 7 other values, the field number set to 0 and 2^29; 8 single-bit flips; 4 random byte "
           "strings (3 free, 1 after a valid prefix); and, at up to 40 field boundaries (top level and inside embedded messages and map entries) x wire types 0, 1, 2, 5, the "
           "insertion of one or two well-formed fields whose numbers the message level does not declare (enclosing lengths recomputed). A second sub-check feeds rapid-generated "
           "byte strings (0..64 bytes) to generated target types. Thorough tier only: a native Go fuzzing campaign FuzzProtoDecode (90 s, 16 workers, coverage-guided, not "
-          "seed-reproducible - the saved input is the reproducible unit) over (bytes <= 4 KiB, selector of 23 static target types: all scalar kinds, zigzag/fixed tags and boundary "
+          "seed-reproducible - the saved input is the reproducible unit) over (bytes <= 4 KiB, selector of 27 static target types: all scalar kinds, zigzag/fixed tags and boundary "
           "field numbers, repeated fields, maps, nested / pointer-to messages, proto2-style optional scalars, byte arrays, Message / custom implementers as fields, behind pointers, "
-          "repeated and as map values, recursive corpus types, top-level implementers and scalars, an inlined pointer chain), seeded with valid encodings, truncations and hostile "
+          "repeated and as map values, recursive corpus types, top-level implementers and scalars, an inlined pointer chain, implementers / corpus structs behind 1..3 pointers at top level and as fields), seeded with valid encodings, truncations and hostile "
           "constants (10/11-byte varints, lengths 2^31 / 2^63, field numbers 0 / 2^29, wire types 3/4/6/7); its oracle is the same checkCase on the raw bytes plus up to six "
           "unknown-field insertions whenever the bytes parse as a message of the target and decode without error; its executions are added to evaluations. One evaluation = one input through Unmarshal, Scan (Parse) and RawValue.Varint/Fixed32/Fixed64. "
           "Non-trivial = prefix that ends strictly inside a field, mutation of a length prefix, insertion not at offset 0, non-empty random input; "
@@ -23,7 +23,8 @@ prop("C07", pkg="c07", vlimit_gb=16, fuzz=[("FuzzProtoDecode", 90)],
      level_note="Exhaustive over the prefixes of each sampled encoding, sampled elsewhere. Trusted base: harness/pgen (builder, wire walker, comparer), protowire, the Go toolchain. "
                 "The thorough tier adds the native fuzzing campaign FuzzProtoDecode (time-boxed, not seed-reproducible). The four defect classes this check found (KF-C07-001 repaired by 59a4758, -002 by f520591, "
                 "-003 by 4eb59c8, -004 by 8ad6b3b) are 'fixed': nothing is excluded, the garbage collector runs normally (quiesceGC is inert), and their witnesses run as regression cases.",
-     assumptions=["the reference field walk uses protowire's primitives but does not restrict field numbers (the statement does not); inputs whose top level contains a group wire type (3, 4) are not compared",
+     assumptions=["for a top-level pointer target the values behind the pointer chain are compared (nil = zero value): the empty input is documented to decode to the zero value, any field makes the decoder allocate",
+                  "the reference field walk uses protowire's primitives but does not restrict field numbers (the statement does not); inputs whose top level contains a group wire type (3, 4) are not compared",
                   "the zero-length entry that the library writes for an empty/nil map (and reads back as 'no entry') is not treated as a message into which unknown fields are inserted",
                   "unknown-field numbers avoid the declared numbers both in full and truncated to 16 bits (conservative: before 63d287d the decoder saw declared numbers modulo 65536)",
                   "allocation is measured per family of inputs first and per input only when the family exceeds 64 MiB; harness allocations are included, which only makes the bound stricter",
